@@ -494,6 +494,7 @@ class Executor:
         self.pathcond = []
         self.uf_cache = {}
         self.path_instrs = 0
+        self.pstate = {}      # per-path state of stubs (tables keyed by objects of this path)
 
     def fresh(self, name, w):
         self.fresh_n += 1
@@ -811,7 +812,7 @@ class Executor:
         if st is not None:
             self.called.add(name)
             return st(self, args, ins)
-        if name.endswith('.init') and not name.startswith('github.com/onflow/crypto'):
+        if name.endswith('.init') and '(' not in name and not name.startswith('github.com/onflow/crypto'):
             return None     # initialisers of dependency packages are not modelled (their globals are not read)
         if self.llvm is not None and name.startswith('github.com/onflow/crypto._Cfunc_'):
             return self.llvm.call_from_go(self, name, args, ins)
